@@ -240,3 +240,33 @@ func pkgFuncs(P *Program, live bool, rels ...string) []*ssa.Function {
 }
 
 var _ = types.Typ
+
+// shiftObs: a shift by a variable amount that can reach the width of the shifted value yields 0 in Go
+// (no trap): in byte-packing code that silently drops the operand. Obligation: count <= width-1.
+func shiftObs(a *boundsAn, ins ssa.Instruction) []boundsOb {
+	b, ok := ins.(*ssa.BinOp)
+	if !ok || (b.Op != token.SHL && b.Op != token.SHR) {
+		return nil
+	}
+	if _, isC := b.Y.(*ssa.Const); isC {
+		return nil
+	}
+	bt, ok := b.X.Type().Underlying().(*types.Basic)
+	if !ok {
+		return nil
+	}
+	width := int64(0)
+	switch bt.Kind() {
+	case types.Int8, types.Uint8:
+		width = 8
+	case types.Int16, types.Uint16:
+		width = 16
+	case types.Int32, types.Uint32:
+		width = 32
+	case types.Int64, types.Uint64, types.Int, types.Uint, types.Uintptr:
+		width = 64
+	default:
+		return nil
+	}
+	return []boundsOb{{ins, fmt.Sprintf("shift count < %d", width), linConst(width - 1).sub(a.formOf(b.Y))}}
+}
